@@ -117,6 +117,8 @@ def obs_eui(e):
     for name in ("bits", "is_iab", "eui64", "modified_eui64", "ipv6_link_local", "__hash__", "__int__", "__str__",
                  "__repr__", "__getstate__", "__index__"):
         o[name] = _safe(lambda k=name: _r(getattr(e, k)()))
+    o["slices"] = _safe(lambda: [e[0:99], e[1:], e[::-1], e[-2:], e[::2]])
+    o["slices_vs_items"] = _safe(lambda: e[0:99] == [e[i] for i in range(len(e[0:99]))] and len(e[0:99]) == e.dialect.num_words)
     o["item0"] = _safe(lambda: e[0])
     o["item_last"] = _safe(lambda: e[-1])
     o["bits_colon"] = _safe(lambda: e.bits(":"))
@@ -280,7 +282,10 @@ def life_eui(ver, v0, v, dname, how):
     else:
         e.__setstate__((v, ver, e.dialect))
     f = netaddr.EUI(v, version=ver, dialect=d)
-    return diff(observe(e), observe(f), "EUI after %s" % ["value=", "word assignment", "setstate"][how])
+    out = diff(observe(e), observe(f), "EUI after %s" % ["value=", "word assignment", "setstate"][how])
+    if obs_eui(f).get("slices_vs_items") is not True:
+        out.append("EUI slices disagree with word indexing: e[0:n] = %r but [e[i]] = %r" % (_safe(lambda: f[0:99]), _safe(lambda: [f[i] for i in range(f.dialect.num_words)])))
+    return out[:6]
 
 
 # ------------------------------------------------------------------ B. aliasing
